@@ -54,6 +54,7 @@ def res_dict(r, label):
     d = r.as_dict()
     d["clause"] = clause_of(r.name, label)
     d["known_id"] = getattr(r, "known_id", None)
+    d["props"] = getattr(r, "props", None)
     if r.smt:
         d["smt"] = r.smt
     return d
@@ -95,7 +96,8 @@ def job(args):
     out = {"script": name, "props": desc["props"], "paths": S.paths, "path_ends": S.path_ends, "wall": S.wall,
            "error": S.error, "dropped": S.dropped, "vacuity": S.vacuity,
            "results": [res_dict(r, S.label) for r in S.results], "counterexamples": []}
-    failed = [r for r in out["results"] if r["status"] == "failed"]
+    failed = [r for r in out["results"] if r["status"] in ("failed", "unknown") and not
+              (r["backend"].startswith("known-finding"))]
     if failed and S.error is None:
         sizes = range(1, 5) if tier == "quick" else range(1, 7)
         found = {}
@@ -188,6 +190,8 @@ def run_property(prop, tier):
         vac += len(o["vacuity"])
         cex = {c["clause"]: c for c in o["counterexamples"]}
         for r in o["results"]:
+            if r.get("props") and prop not in r["props"]:
+                continue
             nobl += 1
             solver_time += r["secs"]
             if r["status"] == "proved":
@@ -196,16 +200,18 @@ def run_property(prop, tier):
                 if "smt" in r and len(samples) < 3:
                     samples.append({"obligation": r["name"], "verdict": "unsat (proved)", "smtlib": r["smt"][:1500]})
                 continue
-            if r["status"] == "unknown":
-                undecided.append(r["name"] + " :: " + r.get("detail", ""))
-                continue
-            if r["status"] != "failed":
+            if r["status"] == "unknown" and not r.get("known_id"):
+                c_u = cex.get(r["clause"])
+                if c_u is None or not c_u["reproduced"]:
+                    undecided.append(r["name"] + " :: " + r.get("detail", ""))
+                    continue
+            if r["status"] not in ("failed", "unknown"):
                 errors.append((o["script"], r["status"]))
                 continue
             # failed obligation: known finding?
             kid = r.get("known_id")
-            match = [f for f in findings if f.get("property") == prop and f.get("id") == kid and
-                     f.get("script") == o["script"] and f.get("clause") == r["clause"]] if kid else []
+            match = [f for f in findings if prop in f.get("property", "").split(",") and f.get("id") == kid and
+                     o["script"] == f.get("script") and f.get("clause") == r["clause"]] if kid else []
             if match:
                 f = match[0]
                 desc = find_script(o["script"])
